@@ -110,16 +110,32 @@ func transportScenario(prop string, bound int) *qx.Scenario {
 				o.Violation, o.Sig = msg, sig
 			}
 		}
-		// the partition log, and per message the requests that carried it
-		var log []string
-		for _, b := range c.Part("A", 0).Log {
-			for _, r := range b.Recs {
-				log = append(log, string(r.Value))
+		// The partition log, in append order, without what the broker appended from a request whose connection
+		// the client had already closed: a client that timed out and gave the attempt up cannot keep a slow
+		// broker from applying it later, and neither property asks that of it. (A request the client never
+		// aborted - its connection still open - counts in full.)
+		var applied []*fk.Entry
+		for _, e := range c.Journal {
+			if e.Key == protocol.Produce && e.Applied {
+				applied = append(applied, e)
+			}
+		}
+		sort.Slice(applied, func(i, j int) bool { return applied[i].BaseOff < applied[j].BaseOff })
+		var log, abandoned []string
+		for _, e := range applied {
+			for _, b := range e.Batches {
+				for _, r := range b.Recs {
+					if e.ClientGone {
+						abandoned = append(abandoned, string(r.Value))
+					} else {
+						log = append(log, string(r.Value))
+					}
+				}
 			}
 		}
 		acked := map[string]bool{}
 		for _, e := range c.Journal {
-			if e.Key == protocol.Produce && e.Applied && e.Answer == "ok" {
+			if e.Key == protocol.Produce && e.Applied && e.Answer == "ok" && !e.ClientGone {
 				for _, b := range e.Batches {
 					for _, r := range b.Recs {
 						acked[string(r.Value)] = true
@@ -131,7 +147,7 @@ func transportScenario(prop string, bound int) *qx.Scenario {
 		for _, cl := range calls {
 			res = append(res, fmt.Sprintf("%v:%v:%s", cl.ids, cl.done, short(cl.err)))
 		}
-		o.Key = fmt.Sprintf("%s log=%v calls=%v stalled=%d", st, log, res, c.StalledReads)
+		o.Key = fmt.Sprintf("%s log=%v late=%v calls=%v stalled=%d", st, log, abandoned, res, c.StalledReads)
 		switch prop {
 		case "C01":
 			for _, cl := range calls {
